@@ -105,7 +105,16 @@ def op_strategy(depth=1, only_tr=False):
                                  "body": st.lists(inner, max_size=4),
                                  "to_identity": st.sampled_from([False, False, True]),
                                  "raise": st.sampled_from([False, False, True, "base"])})
-    return hist.weighted((4, tr), (6, mv), (1, ctx))
+    # saved state, pivot moved, state restored, then a pivot-sensitive
+    # transformation and a move: save/restore cover the pivot as well
+    macro = st.tuples(st.tuples(c, c, c), ang, st.sampled_from(["x", "y", "z"]),
+                      st.sampled_from(["rotate", "scale", "mirror"]), pt).map(
+        lambda t: {"op": "tmacro", "ops": [
+            T("save_state"), T("set_pivot", list(t[0])), T("restore_state"),
+            (T("rotate", t[1], t[2]) if t[3] == "rotate" else
+             T("scale", 2.0) if t[3] == "scale" else T("mirror", "yz")),
+            {"op": "move", "pt": t[4] or {"x": 1.0}, "form": "kw"}]})
+    return hist.weighted((4, tr), (6, mv), (1, ctx), (1, macro))
 
 
 class Runner:
@@ -154,6 +163,11 @@ class Runner:
                 pass
             self.synced = False
             self.t_ops += 1
+            return
+        if name == "tmacro":
+            self.cl.add("pivot_moved_between_save_and_restore")
+            for sub in op["ops"]:
+                self.step(sub)
             return
         if name == "other":
             from vf.statehist import other_builder_activity
